@@ -83,7 +83,9 @@ type rtCase struct {
 	WithoutNull bool   `json:"without_null,omitempty"` // reader option
 
 	// CLI checks only
-	Path string `json:"path,omitempty"` // out | stdout
+	Path  string `json:"path,omitempty"`  // out | stdout | create (CREATE TABLE .. AS SELECT + COMMIT)
+	Color bool   `json:"color,omitempty"` // --color (file destinations only: colour on stdout is what the user asked for)
+	Width string `json:"width,omitempty"` // subset of "WSA": --east-asian-encoding, --count-diacritical-sign, --count-format-code
 }
 
 func (c rtCase) ncols() int { return len(c.Header) }
@@ -169,8 +171,8 @@ func (c rtCase) malformed() string {
 	if c.isJSON() && c.Enc != "UTF8" {
 		return "JSON is UTF-8 only (manual)"
 	}
-	if c.Format == "JSONL" && c.Pretty {
-		return "pretty-printed JSON Lines are not generated"
+	if strings.Trim(c.Width, "WSA") != "" {
+		return "width flags"
 	}
 	if c.Format == "CSV" {
 		d := c.delim()
@@ -328,9 +330,13 @@ func (c rtCase) defaultDialect() bool {
 // and only label the format, the evidence histogram keeps the 80 largest labels).
 func (c rtCase) outcome(full bool) fw.Outcome {
 	cls := c.contentClasses()
-	o := fw.Outcome{Classes: []string{"fmt:" + c.Format}}
+	o := fw.Outcome{}
 	if full {
-		o.Classes = append(o.Classes, "enc:"+c.Enc, "lb:"+c.LB)
+		enc := c.Enc
+		if isUTF16(enc) {
+			enc = "UTF16*"
+		}
+		o.Classes = append(o.Classes, "fmt:"+c.Format, "enc:"+enc)
 		if c.Format == "FIXED" {
 			o.Classes = append(o.Classes, "fixed:"+c.Fixed)
 		}
@@ -648,6 +654,8 @@ func (c rtCase) knownShape() string {
 		return "json_duplicate_member"
 	case c.crTerminated():
 		return "cr_terminated_file_unloadable"
+	case c.Format == "JSONL" && c.Pretty && len(c.allRows()) > 0:
+		return "jsonl_pretty_print_unloadable"
 	}
 	return ""
 }
@@ -813,7 +821,7 @@ func genTableOpts(t *rapid.T, cli bool, allowDirty bool, safeHeader bool) rtCase
 	if c.isJSON() {
 		c.Enc = "UTF8"
 		c.JsonEscape = fw.PickU(t, "escape", []string{"BACKSLASH", "HEX", "HEXALL"})
-		c.Pretty = c.Format == "JSON" && fw.Pct(t, "pretty", 15)
+		c.Pretty = fw.Pct(t, "pretty", 15)
 	} else {
 		c.Enc = encodings[fw.Weighted(t, "enc", []int{36, 10, 6, 6, 8, 8, 8, 18})]
 	}
@@ -919,6 +927,14 @@ func genTableOpts(t *rapid.T, cli bool, allowDirty bool, safeHeader bool) rtCase
 				s = -fw.Range(t, "narrowby", 1, 2)
 			}
 			c.Slack = append(c.Slack, s)
+		}
+	}
+	if cli {
+		c.Color = fw.Pct(t, "color", 35)
+		for _, f := range []string{"W", "S", "A"} {
+			if fw.Pct(t, "width"+f, 20) {
+				c.Width += f
+			}
 		}
 	}
 	if !cli {
